@@ -486,7 +486,9 @@ impl Machine {
     }
 
     fn lookup_var(&mut self, name: &NamedDeBruijn, env: &[Value]) -> Result<Value, Error> {
-        env.get::<usize>(env.len() - usize::from(name.index))
+        env.len()
+            .checked_sub(usize::from(name.index))
+            .and_then(|position| env.get::<usize>(position))
             .cloned()
             .ok_or_else(|| Error::OpenTermEvaluated(Term::Var(name.clone().into())))
     }
